@@ -14,6 +14,8 @@ PROP = "C01"
 THEOREMS = [
     "IrVerif.Kernel.C01_init",
     "IrVerif.Kernel.C01_step",
+    "IrVerif.Kernel.C01_step_conv",
+    "IrVerif.Kernel.C01_step_any",
     "IrVerif.Kernel.C01_history",
     "IrVerif.Kernel.C01_history_from",
 ]
@@ -32,6 +34,8 @@ def run(ctx: Ctx) -> None:
     )
     for obj in load_corpus(PROP):
         K.replay_ops(ctx, PROP, obj["ops"])
+    scope = K.run_exhaustive(ctx, PROP, depth=ctx.pick(2, 3), reduced=not ctx.quick)
+    ctx.exhaustive_scopes.append(scope)
     K.run_random(ctx, PROP, ctx.pick(2000, 40000), ctx.pick(40, 60))
 
 
